@@ -80,6 +80,7 @@ func isSym(t string) bool {
 //	gg:<i>:<f>:<j>:<h>  two gaps
 //	lead:<f> / trail:<f> / both:<f>
 //	case:<i>:<pattern>   token i (a keyword) written as <pattern>
+//	cu:<i>:<pattern>:<f>  both: token i re-cased and every gap filled with filler #f
 //	lower        every keyword in lower case
 func applyLayout(toks []string, spec string) (string, bool) {
 	p := strings.Split(spec, ":")
@@ -107,6 +108,16 @@ func applyLayout(toks []string, spec string) (string, bool) {
 		return sb.String()
 	}
 	switch p[0] {
+	case "cu":
+		// cu:<i>:<pattern>:<f>: keyword i re-cased, then every gap filled with filler f
+		if len(p) != 4 {
+			return "", false
+		}
+		cased, ok := applyLayout(toks, "case:"+p[1]+":"+p[2])
+		if !ok {
+			return "", false
+		}
+		return applyLayout(splitTokens(cased), "u:"+p[3])
 	case "u":
 		any := false
 		s := join(func(i int) string {
@@ -237,6 +248,9 @@ func layoutSpecs(toks []string, twoGap bool) []string {
 			for _, pat := range casePatterns(t) {
 				specs = append(specs, fmt.Sprintf("case:%d:%s", i, pat))
 			}
+			// the two dimensions together: one keyword in lower case, written compactly / with tabs
+			low := strings.ToLower(t)
+			specs = append(specs, fmt.Sprintf("cu:%d:%s:e", i, low), fmt.Sprintf("cu:%d:%s:0", i, low))
 		}
 	}
 	specs = append(specs, "lower")
@@ -302,7 +316,7 @@ func c09Run(w *core.Worker, tier, unit string) {
 				v := doParse(vt, "")
 				if class, _, _ := c09Compare(base, v, true); class != "" {
 					kind := "ws"
-					if strings.HasPrefix(spec, "case") || spec == "lower" {
+					if strings.HasPrefix(spec, "case") || strings.HasPrefix(spec, "cu:") || spec == "lower" {
 						kind = "case"
 					}
 					core.Unguard()
@@ -360,7 +374,7 @@ func c09Run(w *core.Worker, tier, unit string) {
 				v := doParse(vt, df)
 				if class, _, _ := c09Compare(base, v, true); class != "" {
 					kind := "ws"
-					if strings.HasPrefix(spec, "case") || spec == "lower" {
+					if strings.HasPrefix(spec, "case") || strings.HasPrefix(spec, "cu:") || spec == "lower" {
 						kind = "case"
 					}
 					core.Unguard()
@@ -523,6 +537,13 @@ func c09Shrink(c core.Case) []core.Case {
 		if (p[0] == "g" || p[0] == "case") && len(p) == 3 {
 			if i, err := strconv.Atoi(p[1]); err == nil && i > 0 {
 				specs = append(specs, fmt.Sprintf("%s:%d:%s", p[0], i-1, p[2]))
+			}
+		}
+		if p[0] == "cu" && len(p) == 4 {
+			if i, err := strconv.Atoi(p[1]); err == nil {
+				for j := i - 1; j >= 0 && j >= i-3; j-- {
+					specs = append(specs, fmt.Sprintf("cu:%d:%s:%s", j, p[2], p[3]))
+				}
 			}
 		}
 		for _, spec := range specs {
